@@ -41,7 +41,8 @@ def main(pid):
                 if pid == 'C14':
                     # a watched path may come into existence as a directory
                     from specs.dbmodel import S1, S2, S3, S_DIR
-                    wkw = {'row_kw': {'fs_choices': (None, S1, S2, S3, S_DIR)}}
+                    from specs.dbmodel import S_MISSING
+                    wkw = {'row_kw': {'fs_choices': (None, S1, S2, S3, S_DIR)}, 'always_stamps': (None, S_MISSING)}
                 depscheck.kernel_agreement(chk, N, E, goals=True, world_kw=wkw)
                 if not only:
                     depscheck.validate_kernel(chk, rep, n=(60 if chk.thorough() else 24))
